@@ -67,6 +67,7 @@ class ItextGen:
         self.p_col = rng.choice([0.15, 0.3, 0.5])
         self.p_unlabeled_choice = self.directed.get("p_unlabeled_choice", rng.choice([0.0, 0.0, 0.0, 0.15]))
         self.search_lists = set()
+        self.osm_lists = {}
 
     def text(self, dyn=False):
         s = self.rng.choice(TEXTS)
@@ -192,6 +193,19 @@ class ItextGen:
             row["type"] = rng.choice(["select_one_from_file f.csv", "select_multiple_from_file g.xml", "select_one_from_file h.geojson"])
             if rng.random() < 0.1:
                 row["appearance"] = "search('f')"
+        elif r < 0.47:
+            # osm question: its tags (osm sheet) render a label each
+            ln = "tags" + str(len(self.osm_lists))
+            row["type"] = f"osm {ln}"
+            tags = []
+            for i in range(rng.randint(1, 3)):
+                t = {"list_name": ln, "name": rng.choice(["name", "addr", "kind"]) + str(i)}
+                if rng.random() < 0.6:
+                    self.sparse(t, "label", force=True)
+                else:
+                    t["label"] = self.text()
+                tags.append(t)
+            self.osm_lists[ln] = tags
         elif r < 0.52:
             row["type"] = "calculate"
             row["calculation"] = rng.choice(["1 + 1", "${q0}"])
@@ -276,6 +290,8 @@ class ItextGen:
             form["survey_cols"] = head + tail
         if rows:
             form["choices"] = rows
+        if self.osm_lists:
+            form["osm"] = [t for tags in self.osm_lists.values() for t in tags]
         st = {}
         if self.st_dl is not None:
             st["default_language"] = self.st_dl
